@@ -3,18 +3,21 @@ PROPERTY = 'C15'
 LEVEL = 'exploration'
 DEDUCTIVE = ['contracts.c15_coords']
 BUDGET_S = {'quick': 120.0, 'thorough': 300.0}
-MIN_OBLIGATIONS = {'quick': 100, 'thorough': 100}
+MIN_OBLIGATIONS = {'quick': 500, 'thorough': 500}
 BOUNDED_FLOOR = {'quick': 5000, 'thorough': 20000}
 CONFIG_NOTE = {'quick': "pixel2world_single_axis / world2pixel_single_axis for 1-3 inputs and every requested axis, values point-wise symbolic; CoordinateComponentLink.using for ndim 1-3, every index, every "
-                        "non-empty from_needed subset, both directions", 'thorough': "same"}
+                        "non-empty from_needed subset, both directions; CoordinateComponent._calculate for 19 view shapes (slices with steps 1, 2, -1, integers, short tuples, bare slice / integer; ranks 1-3) x world axis, "
+                        "bounds, indices, extents and the observed output position symbolic", 'thorough': "same"}
 TRUSTED_BASE = [
     "numpy facts: unbroadcast(a) re-broadcast equals a; broadcast_arrays / broadcast_to / ravel / reshape keep the value at corresponding elements; a.flat[0] is the first element (arrays are represented by their value at an arbitrary element and at the first element)",
     "contract of the coordinate object: component k of the transformation does not depend on inputs its correlation matrix marks as unrelated (instantiated at the shortcut's point and the true point); "
     "for the inverse the set of needed world axes is the result of _connected_axes (evaluated on every boolean matrix up to 3x3 / 4x4 in the bounded layer, not proved)",
+    "_calculate: np.arange(n) and its indexing are index sequences start + step * position (slice.indices arithmetic); np.meshgrid(indexing='ij') gives grid i the value of input i along axis i; "
+    "indexing the converted array with 0 / slice(None) removes / keeps an axis; np.broadcast_to fixes the shape; the world axis is a function of the pixel axes in dependent_axes only (built into the model)",
     "the VC generator (pyvc) and z3 5.1.0",
 ]
 ASSUMPTIONS = [
-    "AffineCoordinates (np.matmul), CoordinateComponent._calculate (np.arange / meshgrid / fancy indexing), astropy WCS and the link evaluation machinery are numpy code out of reach of the VC generator: bounded stand-in only",
+    "AffineCoordinates (np.matmul), CoordinateComponent._calculate for views with index arrays, masks or Ellipsis (fancy indexing of the full grid), astropy WCS and the link evaluation machinery are numpy code out of reach of the VC generator: bounded stand-in only",
     "world->pixel links are compared within 1e-9 relative tolerance and skipped for the degenerate 1e-17-step matrices (ill-conditioned inverse)",
 ]
 
@@ -26,9 +29,10 @@ def bounded(tier, seed, R):
 
 MANIFEST_ENTRY = {
     "level": "exploration",
-    "technique": "contract-based deductive verification of the single-axis shortcuts and of the link's argument placement (pyvc + z3, arrays point-wise); exhaustive evaluation of dependent_axes on all boolean correlation "
+    "technique": "contract-based deductive verification of CoordinateComponent._calculate for integer / slice views (index sequences, symbolic slice arithmetic), of the single-axis shortcuts and of the link's argument placement (pyvc + z3, arrays point-wise); exhaustive evaluation of dependent_axes on all boolean correlation "
                  "matrices up to 3x3 (4x4 thorough); bounded sweep of world attributes and pixel<->world links against the matrix applied to the pixel grid",
-    "text": "Proved for 1-3 axes: pixel2world_single_axis and world2pixel_single_axis call the transformation once with every axis, each input being the array or its first element, and return the requested component at the "
+    "text": "Proved for views made of integers and slices (steps 1, 2, -1, negative bounds, short tuples): the world attribute at output position q is the world coordinate of the pixel the view selects there "
+            "(slice start + step * q; negative integers counted from the end), with the shape of the view. Proved for 1-3 axes: pixel2world_single_axis and world2pixel_single_axis call the transformation once with every axis, each input being the array or its first element, and return the requested component at the "
             "given inputs in the input shape, given that the correlation information is sound; CoordinateComponentLink.using places supplied arguments by from_needed, fills the other axes with the broadcast default world "
             "coordinate, reverses to (x, y, z) order and asks for axis ndim-1-index. dependent_axes is evaluated on every boolean matrix (complete up to the stated size). World attributes, both link directions and the "
             "inverse are swept over an affine catalogue (diagonal, coupled, triangular, all permutations, rotations, block, chain), identity and WCS coordinates x a view catalogue.",
